@@ -284,6 +284,8 @@ def describe(v, depth=0):
         return repr(v)
     if isinstance(v, enum.Enum):
         return '%s.%s' % (type(v).__name__, v.name)
+    if isinstance(v, type):
+        return 'class ' + v.__name__
     if isinstance(v, (list, tuple)):
         return [describe(x, depth + 1) for x in v]
     if isinstance(v, dict):
